@@ -89,6 +89,10 @@ func (c *Ctx) heapSet(st *State, name string, t *Term) {
 	if _, ok := c.heapSort[name]; !ok {
 		c.heapSort[name] = t.Sort
 	}
+	if t.Op == "ite" {
+		// keep heap terms free of ite at the top (they are used inside quantifier patterns)
+		t = c.define(t, "h")
+	}
 	st.heap[name] = t
 }
 
